@@ -32,7 +32,17 @@ def rand_ub(rng, kind=None):
 
 
 def vectors(ub):
-    return np.asarray(ub.n_phi, float).T[0], np.asarray(ub.surf_nphi, float).T[0]
+    """reference and surface vector in the phi frame, computed from the stored coordinates and the CURRENT UB
+    (independently of the n_phi / surf_nphi getters)"""
+    UB = np.asarray(ub.UB, float)
+    out = []
+    for rv in (ub.reference, ub.surface):
+        v = np.asarray(rv.n_ref, float)
+        if rv.rlv:
+            v = UB @ v
+            v = v / np.linalg.norm(v)
+        out.append(v)
+    return out[0], out[1]
 
 
 def psi_of(ub, P):
